@@ -531,7 +531,7 @@ func runC16(c *eng.Ctx) {
 		call := c.One(w, eng.CallTo(bbrT+".EvictOutOfTimeRange"), "EvictOutOfTimeRange(behind, ahead)")
 		a := eng.CallArgs(call.Instr.(*ssa.Call))
 		for i, prm := range f.Params[1:] {
-			role := prm.Name() // behind, ahead
+			role := eng.ParamName(prm) // behind, ahead
 			other := map[string]string{"behind": "ahead", "ahead": "behind"}[role]
 			c.Check(eng.DependsOnField(a[i], dchT+"."+role) && !eng.DependsOnField(a[i], dchT+"."+other), "call-site-role:"+role, call.Instr, w,
 				"the argument passed for parameter `"+role+"` is the channel's "+role+" bound", "passes "+p.Desc(a[i]))
@@ -542,6 +542,7 @@ func runC16(c *eng.Ctx) {
 		res := gf.Signature.Results()
 		for i := 0; i < res.Len(); i++ {
 			role := res.At(i).Name()
+			role = eng.ResultName(gf, i) // by position, whatever the result is called today
 			for _, s := range p.Sites(nc, eng.StoreField(dchT+"."+role)) {
 				v := s.Instr.(*ssa.Store).Val
 				okR := eng.DependsOn(v, func(x ssa.Value) bool {
